@@ -7,6 +7,8 @@ from ..absval import abstractor
 from ..engine import CHS, SCHED, SEQ, Engine
 from ..model import AnalysisError, dotted, norm
 from ..report import Report
+from .. import sym
+from .symutil import S, arg, branches, dnf, elem_of, has, is_, mentions, sh, unobj
 from .common import arg_of, av, calls_to, one_call, own_nodes, returns
 
 EXPLANATION = (
@@ -23,109 +25,119 @@ EOM = "pulser.channels.eom.RydbergEOM"
 CH = "pulser.channels.base_channel.Channel"
 
 
+def _own_calls(Sf, f, name: str) -> list:
+    return [l for l in Sf.calls(name) if l.fn == f.short]
+
+
 def run(E: Engine, rep: Report, tier: str) -> dict:
     # ------------------------------------------------------ add_eom_pulse
     aep = E.method(SEQ, "add_eom_pulse")
-    pulse_ctor = None
-    for n in own_nodes(aep):
-        if isinstance(n, ast.Call) and (dotted(n.func) or "") == "Pulse.ConstantPulse":
-            pulse_ctor = n
-    if pulse_ctor is None:
-        raise AnalysisError("anchor: add_eom_pulse no longer builds a Pulse.ConstantPulse")
-    a_amp, a_det = av(E, aep, pulse_ctor.args[1]), av(E, aep, pulse_ctor.args[2])
-    w = E.where(aep, pulse_ctor)
-    rep.check(any(r.endswith("eom_blocks.rabi_freq") for r in a_amp.roots) and "idx:-1" in a_amp.tags and not any(r.endswith(("detuning_on", "detuning_off")) for r in a_amp.roots), "FLOW", "add_eom_pulse|amplitude=current-block.rabi_freq", "EOM pulse amplitude = rabi_freq of the open block", f"EOM pulse amplitude provenance: {a_amp.show()[:160]}", w)
-    rep.check(any(r.endswith("eom_blocks.detuning_on") for r in a_det.roots) and "idx:-1" in a_det.tags and not any(r.endswith(("rabi_freq", "detuning_off")) for r in a_det.roots), "FLOW", "add_eom_pulse|detuning=current-block.detuning_on", "EOM pulse detuning = detuning_on of the open block", f"EOM pulse detuning provenance: {a_det.show()[:160]}", w)
-    a_dur = av(E, aep, pulse_ctor.args[0])
-    rep.check("duration" in a_dur.roots, "FLOW", "add_eom_pulse|duration-from-argument", "duration is the requested one", "EOM pulse duration no longer comes from the argument", w)
-    # same channel for the block and for the add
-    addc = one_call(E, aep, E.method(SEQ, "_add"))
-    rep.check(norm(addc.args[1]) == "channel" and "self._schedule[channel].eom_blocks[-1]" in norm(aep.node), "FLOW", "add_eom_pulse|same-channel", "block read and pulse added on the same channel", "add_eom_pulse reads the EOM block of a different channel than the one it adds to", E.where(aep, addc))
+    Sa = S(E, aep)
+    ctors = _own_calls(Sa, aep, "ConstantPulse")
+    adds = [l for l in Sa.log if l.fn == aep.short and l.kind == "call" and l.target == ("attr", ("name", "self"), "_add")]
+    if not ctors or not adds:
+        raise AnalysisError("anchor: add_eom_pulse no longer builds a Pulse.ConstantPulse / calls _add")
+    pc = ctors[-1]
+    w = E.where(aep, pc.node)
+    block = sym.Pattern("self._schedule[channel].eom_blocks[-1]").term
+    rep.check(arg(pc, 1, "amplitude") == ("attr", block, "rabi_freq"), "FLOW", "add_eom_pulse|amplitude=current-block.rabi_freq", "EOM pulse amplitude = rabi_freq of the open block", f"EOM pulse amplitude is {sh(arg(pc, 1, 'amplitude'), 120)}", w)
+    rep.check(arg(pc, 2, "detuning") == ("attr", block, "detuning_on"), "FLOW", "add_eom_pulse|detuning=current-block.detuning_on", "EOM pulse detuning = detuning_on of the open block", f"EOM pulse detuning is {sh(arg(pc, 2, 'detuning'), 120)}", w)
+    rep.check(arg(pc, 0, "duration") == ("name", "duration"), "FLOW", "add_eom_pulse|duration-from-argument", "duration is the requested one", "EOM pulse duration no longer comes from the argument", w)
+    rep.check(arg(adds[-1], 1, "channel") == ("name", "channel") and arg(adds[-1], 0, "pulse") == pc.value, "FLOW", "add_eom_pulse|same-channel", "block read and pulse added on the same channel", "add_eom_pulse reads the EOM block of a different channel than the one it adds to (or adds another pulse)", E.where(aep, adds[-1].node))
     # ------------------------------------------------- add_delay (detuned)
     ad = E.method(SCHED, "add_delay")
-    for n in own_nodes(ad):
-        if isinstance(n, ast.Call) and (dotted(n.func) or "") == "Pulse.ConstantPulse":
-            d = av(E, ad, n.args[2])
-            rep.check(any(r.endswith("eom_blocks.detuning_off") for r in d.roots) and "idx:-1" in d.tags, "FLOW", "add_delay|detuned-delay=block.detuning_off", "idle detuning in EOM mode = detuning_off of the open block", f"detuned delay detuning provenance: {d.show()[:160]}", E.where(ad, n))
-            rep.check(isinstance(n.args[1], ast.Constant) and float(n.args[1].value) == 0.0, "FLOW", "add_delay|detuned-delay-zero-amplitude", "zero amplitude", "detuned delay has non-zero amplitude", E.where(ad, n))
-    ok = False
-    for n in own_nodes(ad):
-        if isinstance(n, ast.If) and "in_eom_mode()" in norm(n.test) and "detuning_off != 0" in norm(n.test):
-            ok = True
+    Sd = S(E, ad)
+    cblock = sym.Pattern("self[channel].eom_blocks[-1]").term
+    dp = _own_calls(Sd, ad, "ConstantPulse")
+    for l in dp:
+        rep.check(arg(l, 2, "detuning") == ("attr", cblock, "detuning_off"), "FLOW", "add_delay|detuned-delay=block.detuning_off", "idle detuning in EOM mode = detuning_off of the open block", f"detuned delay detuning is {sh(arg(l, 2, 'detuning'), 120)}", E.where(ad, l.node))
+        a1 = arg(l, 1, "amplitude")
+        rep.check(a1 is not None and a1[0] == "const" and float(a1[1]) == 0.0, "FLOW", "add_delay|detuned-delay-zero-amplitude", "zero amplitude", "detuned delay has non-zero amplitude", E.where(ad, l.node))
+    slots = _own_calls(Sd, ad, "_TimeSlot")
+    ok = bool(slots) and bool(dp)
+    for l in slots:
+        ty = arg(l, 0, "type")
+        alts = dict()
+        for conds, leaf in branches(ty):
+            alts[leaf if leaf[0] == "const" else "pulse"] = sym.mk_and(list(conds) + list(sym.conj_of(l.cond)))
+        # either one construction with a conditional type, or one construction per branch
+        pulse_c = alts.get("pulse")
+        if pulse_c is not None:
+            okc = any(any(is_(x, "self[channel].in_eom_mode()") is not None for x in cj) and any(is_(x, "self[channel].eom_blocks[-1].detuning_off != 0") is not None for x in cj) for cj in dnf(pulse_c)) and all(any(is_(x, "self[channel].in_eom_mode()") is not None for x in cj) and any(is_(x, "self[channel].eom_blocks[-1].detuning_off != 0") is not None for x in cj) for cj in dnf(pulse_c))
+            ok = ok and okc
+        delay_c = alts.get(("const", "delay"))
+        if delay_c is not None:
+            ok = ok and all(any(is_(x, "not self[channel].in_eom_mode()") is not None or is_(x, "self[channel].eom_blocks[-1].detuning_off == 0") is not None for x in cj) for cj in dnf(delay_c))
     rep.check(ok, "FLOW", "add_delay|detuned-iff-in-eom-and-nonzero-off", "delay is a detuned pulse iff in EOM mode with non-zero detuning_off", "the condition for a detuned delay changed", E.where(ad))
     # ----------------------------------------------------------- enable_eom
     en = E.method(SCHED, "enable_eom")
-    ctor = None
-    for n in own_nodes(en):
-        if isinstance(n, ast.Call) and (dotted(n.func) or "") == "_EOMSettings":
-            ctor = n
-    if ctor is None:
+    Se = S(E, en)
+    ctor = [l for l in Se.log if l.kind == "call" and l.target == ("name", "_EOMSettings")]
+    if not ctor:
         raise AnalysisError("anchor: enable_eom no longer builds _EOMSettings")
-    kws = {k.arg: norm(k.value) for k in ctor.keywords}
+    kws = dict(ctor[-1].value[3])
     want = {"rabi_freq": "amp_on", "detuning_on": "detuning_on", "detuning_off": "detuning_off", "switching_beams": "switching_beams"}
-    rep.check(all(kws.get(k) == v for k, v in want.items()), "FLOW", "enable_eom|settings-slots", "rabi_freq<-amp_on, detuning_on<-detuning_on, detuning_off<-detuning_off", f"_EOMSettings is filled as {kws}: a parameter landed in the wrong slot", E.where(en, ctor))
-    rep.check(kws.get("ti", "").replace(" ", "") == "self[channel_id][-1].tf", "FLOW", "enable_eom|block-starts-at-current-end", "block starts at the channel's current end (after the buffer)", f"EOM block start is {kws.get('ti')}", E.where(en, ctor))
-    # buffer pulse uses detuning_off; duration adjusted
-    for n in own_nodes(en):
-        if isinstance(n, ast.Call) and (dotted(n.func) or "") == "Pulse.ConstantPulse":
-            rep.check(norm(n.args[2]) == "detuning_off" and any(r.endswith("adjust_duration()") for r in av(E, en, n.args[0]).roots), "FLOW", "enable_eom|buffer=detuning_off,adjusted", "buffer pulse: adjusted _eom_buffer_time at detuning_off", f"buffer pulse is {norm(n)[:100]}", E.where(en, n))
-    v_buf = None
-    for n in own_nodes(en):
-        if isinstance(n, ast.Assign) and norm(n.targets[0]) == "eom_buffer_time":
-            v_buf = av(E, en, n.value)
-    rep.check(v_buf is not None and any(r.endswith("._eom_buffer_time") for r in v_buf.roots) and any(r.endswith("adjust_duration()") for r in v_buf.roots), "FLOW", "enable_eom|buffer-time=adjust(_eom_buffer_time)", "buffer = adjust_duration(channel._eom_buffer_time)", "enable_eom's buffer no longer derives from _eom_buffer_time through adjust_duration", E.where(en))
-    wf = E.method(SCHED, "wait_for_fall")
-    ab = abstractor(E.flow(en))
-    cs = calls_to(E, en, wf)
-    ok = False
-    for _n, e in cs:
-        dnf = ab.enclosing_conditions(e.node)
-        txt = [" AND ".join(l.show() for l in c) for c in dnf]
-        ok = all("_skip_buffer" in t and "_skip_wait_for_fall" in t for t in txt)
-    rep.check(bool(cs) and ok, "FLOW", "enable_eom|waits-for-fall-unless-skipped", "waits for the previous pulse to ramp down unless _skip_buffer/_skip_wait_for_fall", "enable_eom no longer waits for the fall time before the buffer (or the skip flags changed)", E.where(en))
+    rep.check(all(kws.get(k) == ("name", v) for k, v in want.items()), "FLOW", "enable_eom|settings-slots", "rabi_freq<-amp_on, detuning_on<-detuning_on, detuning_off<-detuning_off", f"_EOMSettings is filled as { {k: sh(v, 30) for k, v in kws.items()} }: a parameter landed in the wrong slot", E.where(en, ctor[-1].node))
+    rep.check(kws.get("ti") == sym.Pattern("self[channel_id][-1].tf").term, "FLOW", "enable_eom|block-starts-at-current-end", "block starts at the channel's current end (after the buffer)", f"EOM block start is {sh(kws.get('ti'), 80)}", E.where(en, ctor[-1].node))
+    BUF = "self[channel_id].adjust_duration(self[channel_id].channel_obj._eom_buffer_time)"
+    # buffer pulse uses detuning_off; duration adjusted  (helpers of enable_eom are inlined: look at every logged call)
+    bp = Se.calls("ConstantPulse")
+    for l in bp:
+        rep.check(arg(l, 2, "detuning") == ("name", "detuning_off") and is_(arg(l, 0, "duration"), BUF) is not None, "FLOW", "enable_eom|buffer=detuning_off,adjusted", "buffer pulse: adjusted _eom_buffer_time at detuning_off", f"buffer pulse is {sh(l.value, 160)}", E.where(en, l.node))
+    bd = [l for l in Se.calls("add_delay") if l.target == ("attr", ("name", "self"), "add_delay")]
+    ok = bool(bp) and bool(bd) and all(is_(arg(l, 0, "duration"), BUF) is not None and arg(l, 1, "channel") == ("name", "channel_id") for l in bd)
+    rep.check(ok, "FLOW", "enable_eom|buffer-time=adjust(_eom_buffer_time)", "buffer = adjust_duration(channel._eom_buffer_time)", "enable_eom's buffer no longer derives from _eom_buffer_time through adjust_duration", E.where(en))
+    wf = [l for l in Se.log if l.kind == "call" and l.target == ("attr", ("name", "self"), "wait_for_fall")]
+    ok = bool(wf) and all(("not", ("name", "_skip_buffer")) in sym.conj_of(l.cond) and ("not", ("name", "_skip_wait_for_fall")) in sym.conj_of(l.cond) for l in wf) and all(("not", ("name", "_skip_buffer")) in sym.conj_of(l.cond) for l in bp + bd)
+    first_buf = min((Se.log.index(l) for l in bp + bd), default=-1)
+    ok = ok and all(Se.log.index(l) < first_buf for l in wf)
+    rep.check(ok, "FLOW", "enable_eom|waits-for-fall-unless-skipped", "waits for the previous pulse to ramp down (before the buffer) unless _skip_buffer/_skip_wait_for_fall", "enable_eom no longer waits for the fall time before the buffer (or the skip flags changed)", E.where(en))
     # ---------------------------------------------------------- disable_eom
     de = E.method(SCHED, "disable_eom")
-    ok = False
-    for n in own_nodes(de):
-        if isinstance(n, ast.Assign) and norm(n.targets[0]).replace(" ", "") == "self[channel_id].eom_blocks[-1].tf":
-            ok = norm(n.value).replace(" ", "") == "self[channel_id][-1].tf"
-    rep.check(ok, "FLOW", "disable_eom|block-closed-at-current-end", "eom_blocks[-1].tf = current end", "disable_eom no longer closes the block at the channel's current end", E.where(de))
-    ok = False
-    for n in own_nodes(de):
-        if isinstance(n, ast.If) and "custom_buffer_time" in norm(n.test):
-            body, orelse = norm(ast.Module(body=n.body, type_ignores=[])), norm(ast.Module(body=n.orelse, type_ignores=[]))
-            ok = "add_delay" in body and "_eom_buffer_time" in body and "wait_for_fall" in orelse
+    Sx = S(E, de, inline=False)
+    st = [l for l in Sx.logged("store") if l.target == sym.Pattern("self[channel_id].eom_blocks[-1].tf").term]
+    rep.check(len(st) == 1 and st[0].value == sym.Pattern("self[channel_id][-1].tf").term and st[0].cond == sym.TRUE, "FLOW", "disable_eom|block-closed-at-current-end", "eom_blocks[-1].tf = current end", "disable_eom no longer closes the block at the channel's current end", E.where(de))
+    dl = [l for l in Sx.calls("add_delay")]
+    wl = [l for l in Sx.calls("wait_for_fall")]
+    CB = "Q_cfg and Q_cfg.custom_buffer_time"
+    ok = bool(dl) and bool(wl)
+    for l in dl:
+        ok = ok and any(is_(x, "Q_cfg.custom_buffer_time") is not None for x in sym.conj_of(l.cond)) and is_(arg(l, 0, "duration"), "self[channel_id].adjust_duration(self[channel_id].channel_obj._eom_buffer_time)") is not None and ("not", ("name", "_skip_buffer")) in sym.conj_of(l.cond)
+    for l in wl:
+        ok = ok and ("not", ("name", "_skip_buffer")) in sym.conj_of(l.cond) and any(mentions(x, "custom_buffer_time") for x in sym.conj_of(l.cond))
     rep.check(ok, "FLOW", "disable_eom|buffer-iff-custom-else-wait", "custom buffer delay if configured, else wait for the fall time", "disable_eom's buffering branches changed", E.where(de))
     # _eom_buffer_time
     bt = [f for f in E.cls(CH).methods["_eom_buffer_time"] if f.kind == "property"][0]
-    v = av(E, bt, returns(bt)[0].value)
-    rep.check(any(r.endswith("custom_buffer_time") for r in v.roots) and "self.rise_time" in v.roots and "const:2" in v.roots and "Or" in v.tags, "FLOW", "Channel._eom_buffer_time|custom-or-2*rise_time", "custom_buffer_time or 2*rise_time", "_eom_buffer_time is no longer `custom_buffer_time or 2*rise_time`", E.where(bt))
+    r = S(E, bt).ret
+    rep.check(is_(r, "int(self.eom_config.custom_buffer_time or 2 * self.rise_time)") is not None, "FLOW", "Channel._eom_buffer_time|custom-or-2*rise_time", "custom_buffer_time or 2*rise_time", f"_eom_buffer_time is no longer `custom_buffer_time or 2*rise_time`: {sh(r, 120)}", E.where(bt))
     # ------------------------------------------------ calculate_detuning_off
     cdo = [f for f in E.cls(EOM).methods["calculate_detuning_off"] if f.kind != "overload"][0]
-    src_nodes = list(own_nodes(cdo))
-    idx_name = None
-    for n in src_nodes:
-        if isinstance(n, ast.Assign) and isinstance(n.value, ast.Call) and isinstance(n.value.func, ast.Attribute) and n.value.func.attr == "argmin":
-            inner = n.value.func.value
-            ok = isinstance(inner, ast.Call) and (dotted(inner.func) or "").endswith("abs") and isinstance(inner.args[0], ast.BinOp) and isinstance(inner.args[0].op, ast.Sub) and "optimal_detuning_off" in norm(inner.args[0]) and "off_options" in norm(inner.args[0])
-            idx_name = n.targets[0].id if isinstance(n.targets[0], ast.Name) else None
-            rep.check(ok, "FLOW", "calculate_detuning_off|argmin-abs-distance", "index = argmin(|options - optimum|)", f"closest option computed as {norm(n.value)[:100]}", E.where(cdo, n))
-    if idx_name is None:
-        rep.violation("FLOW", "calculate_detuning_off|argmin-abs-distance", "no argmin over |options - optimum| found", E.where(cdo))
-    else:
-        uses = [norm(n) for n in src_nodes if isinstance(n, ast.Subscript) and norm(n.slice) == idx_name]
-        rep.check(any(u.startswith("off_options[") for u in uses) and any(u.startswith("self._switching_beams_combos[") for u in uses), "FLOW", "calculate_detuning_off|same-index-for-beams", "detuning and switching beams picked with the same index", f"the closest-option index is used for {uses}: detuning_off and switching beams could come from different options", E.where(cdo))
+    r = S(E, cdo, inline=False).ret
+    IDX = "np.abs(Q_opts.as_array(detach=True) - optimal_detuning_off).argmin()"
+    m = has(r, "Q_opts[" + IDX + "]")
+    rep.check(m is not None and is_(m["Q_opts"], "self.detuning_off_options(amp_on, detuning_on)") is not None, "FLOW", "calculate_detuning_off|argmin-abs-distance", "index = argmin(|options - optimum|)", f"the closest option is no longer options[argmin(|options - optimal_detuning_off|)]: {sh(r, 200)}", E.where(cdo))
+    mb = has(r, "self._switching_beams_combos[" + IDX + "]", m) if m else None
+    rep.check(mb is not None, "FLOW", "calculate_detuning_off|same-index-for-beams", "detuning and switching beams picked with the same index", "detuning_off and the switching beams are no longer picked with the same closest-option index", E.where(cdo))
     doo = [f for f in E.cls(EOM).methods["detuning_off_options"]][0]
-    ok = any(isinstance(n, ast.For) and norm(n.iter) == "self._switching_beams_combos" for n in own_nodes(doo))
-    rep.check(ok, "FLOW", "detuning_off_options|iterates-_switching_beams_combos", "options enumerated in the order of _switching_beams_combos", "detuning_off_options no longer iterates _switching_beams_combos (index correspondence with the beams lookup lost)", E.where(doo))
-    ok = any(isinstance(n, ast.BinOp) and isinstance(n.op, ast.Sub) and norm(n.left) == "all_beams" and "beams_off" in norm(n.right) for n in own_nodes(doo))
+    r = S(E, doo, inline=False).ret
+    comps = [unobj(t) for t in sym.subterms(r) if unobj(t)[0] == "comp"]
+    ls = [c for c in comps if len(c[3]) == 1 and c[3][0][0] == sym.Pattern("self._switching_beams_combos").term and c[3][0][1] == sym.TRUE]
+    rep.check(bool(ls), "FLOW", "detuning_off_options|iterates-_switching_beams_combos", "options enumerated in the order of _switching_beams_combos", "detuning_off_options no longer enumerates _switching_beams_combos in order (index correspondence with the beams lookup lost)", E.where(doo))
+    ok = False
+    for c in ls:
+        m = is_(c[2], "self._lightshift(Q_rf, *(set(RydbergBeam) - set(Q_off)))")
+        ok = ok or (m is not None and elem_of(m["Q_off"], c[3][0][0]))
     rep.check(ok, "FLOW", "detuning_off_options|beams_on=all-beams_off", "beams left on = all beams minus the switched-off ones", "the set of beams contributing to the light shift is no longer all_beams - beams_off", E.where(doo))
     # Sequence level: enable passes the computed values to the scheduler
     for nm in ("enable_eom_mode", "modify_eom_setpoint"):
-        m = E.method(SEQ, nm)
-        c = one_call(E, m, en)
-        a = [av(E, m, x) for x in c.args[1:4]]
-        ok = "amp_on" in a[0].roots and "detuning_on" in a[1].roots and any("_process_eom_parameters()" in r for r in a[2].roots) and "detuning_on" not in a[0].roots and "amp_on" not in a[1].roots
-        rep.check(ok, "FLOW", f"Sequence.{nm}|passes-setpoint-to-scheduler", "(amp_on, detuning_on, computed detuning_off) handed to the scheduler in that order", f"{nm} hands {[norm(x) for x in c.args[1:4]]} to _Schedule.enable_eom", E.where(m, c))
+        m_ = E.method(SEQ, nm)
+        Sm = S(E, m_, inline=False)
+        cs = [l for l in Sm.log if l.kind == "call" and l.target is not None and l.target[0] == "attr" and l.target[2] == "enable_eom"]
+        if not cs:
+            raise AnalysisError(f"anchor: {nm} no longer calls _Schedule.enable_eom")
+        c = cs[-1]
+        a = [arg(c, i, n_) for i, n_ in ((1, "amp_on"), (2, "detuning_on"), (3, "detuning_off"))]
+        ok = all(x is not None for x in a) and mentions(a[0], "amp_on") and not mentions(a[0], "detuning_on") and mentions(a[1], "detuning_on") and not mentions(a[1], "amp_on") and any(t[0] == "call" and t[1] == ("attr", ("name", "self"), "_process_eom_parameters") for t in sym.subterms(a[2]))
+        rep.check(ok, "FLOW", f"Sequence.{nm}|passes-setpoint-to-scheduler", "(amp_on, detuning_on, computed detuning_off) handed to the scheduler in that order", f"{nm} hands {[sh(x, 50) for x in a]} to _Schedule.enable_eom", E.where(m_, c.node))
     rep.floor("FLOW", 20)
     return {}
